@@ -11,7 +11,15 @@ use crate::kernel::Predicate;
 
 impl Predicate<Transaction> for TxnFilterTxnTSEnd {
     fn eval(&self, txn: &Transaction) -> bool {
-        match txn.header.timestamp.timestamp().cmp(&self.end) {
+        // instants are compared by value (jiff 0.2.5 can compare a deserialized timestamp near
+        // the epoch wrongly, see parser::parts::timestamp::parse_timestamp)
+        match txn
+            .header
+            .timestamp
+            .timestamp()
+            .as_nanosecond()
+            .cmp(&self.end.as_nanosecond())
+        {
             Ordering::Less => true,
             Ordering::Equal => false,
             Ordering::Greater => false,
